@@ -216,6 +216,10 @@ def _in_blocks(head, body, tail=""):
 
 
 FAMILIES.update({
+    "list_then_subscripts": (lambda n: "x = [" + "1, " * n + "]" + "[0]" * n + "\n", "flat"),
+    "dict_then_calls": (lambda n: "x = {" + "1: 2, " * n + "}" + ".get(1)" * n + "\n", "flat"),
+    "tuple_then_attrs_and_calls": (lambda n: "x = (" + "a, " * n + ")" + ".b(c)" * n + "\n", "flat"),
+    "subproc_then_trailers": (lambda n: "x = $(echo " + "a " * n + ")" + "[0](1)" * n + "\n", "flat"),
     "gated_type_in_ifs": (_in_blocks("if a:", "type X = int"), "nest"),
     "gated_generic_def_in_ifs": (_in_blocks("if a:", "def f[T](x: T) -> T: pass"), "nest"),
     "gated_except_star_in_ifs": (_in_blocks("if a:", "try:\n    pass\nexcept* E:\n    pass"), "nest"),
